@@ -370,6 +370,9 @@ func (e *Exec) Assert(label string, c sym.Sc, kf string, carve sym.Sc) {
 	if e.replaying() {
 		// already checked by the ancestor path that scheduled this fork
 		// (same path condition at this point); continue under c as it did.
+		if kf != "" && e.M.Known[kf] {
+			e.noteLit(sym.Or(carve, c))
+		}
 		e.commit(c, true, true)
 		return
 	}
@@ -415,11 +418,13 @@ func (e *Exec) assert1(label string, c sym.Sc, kf string) {
 	switch r {
 	case sym.Unsat:
 		e.res.Asserts = append(e.res.Asserts, AssertRec{Label: label, Status: "discharged"})
+		e.noteLit(c) // implied by the path condition; keeps replays in step
 	case sym.Sat:
 		e.res.Asserts = append(e.res.Asserts, AssertRec{Label: label, Status: "violated", Vec: vec})
 		e.assumeAfter(c)
 	default:
 		e.res.Asserts = append(e.res.Asserts, AssertRec{Label: label, Status: "unknown"})
+		e.commit(c, true, true)
 	}
 }
 
